@@ -1,6 +1,6 @@
 """C14 - traceable vectorizers equal scikit-learn's, n-grams kept as token tuples."""
 from vf import loader
-from vf.core import Clause, Outcome, Violation, require
+from vf.core import Clause, Outcome, Violation, require, round_trip, COPIES
 
 import numpy as np
 from hypothesis import strategies as st
@@ -41,7 +41,7 @@ def _as(kind, docs):
     return list(docs)
 
 
-def _fit_compare(ref, tra, o, corpus, other, facts, tol, stage="", container="list"):
+def _fit_compare(ref, tra, o, corpus, other, facts, tol, stage="", container="list", copy_how=None):
     """fits both on the corpus and compares everything; returns None when both refuse, else (names_label, removed)"""
     ref_exc = tra_exc = None
     try:
@@ -64,6 +64,11 @@ def _fit_compare(ref, tra, o, corpus, other, facts, tol, stage="", container="li
         require(mx <= tol, "matrix:values:" + what + stage, "max abs difference %r\nsklearn=%r\ntraceable=%r" % (
             mx, a.toarray().tolist(), b.toarray().tolist()), facts)
 
+    if copy_how:
+        # the fitted vectorizer is persisted / deep-copied and BOTH go on being used: the copy transforms like scikit-learn's, and the
+        # original (checked by everything below) is what it was
+        tcopy = round_trip(tra, copy_how)
+        same(ref.transform(_as(container, other)), tcopy.transform(_as(container, other)), "transform:" + copy_how + "-copy")
     # vocabulary: tuples of tokens, joined = scikit-learn's key, same column
     voc = tra.vocabulary_
     a, b = o["ngram_range"]
@@ -151,7 +156,7 @@ def check(case):
     facts = facts_of(o)
     cont = case.get("container", "list")
     facts["container"] = cont
-    first = _fit_compare(ref, tra, o, corpus, other, facts, tol, container=cont)
+    first = _fit_compare(ref, tra, o, corpus, other, facts, tol, container=cont, copy_how=case.get("via_copy"))
     a, b = o["ngram_range"]
     labels = [o["kind"]]
     if first is None:
@@ -175,6 +180,7 @@ def check(case):
         labels.append("long-document")
     labels.append("corpus:" + cont)
     labels.append("fixed-vocabulary" if fv else "learned-vocabulary")
+    labels.append("copied-after-fit:" + str(case.get("via_copy") or "none"))
     if first is None:
         return Outcome(labels, False)
     return Outcome(labels, b >= 2 or o["stop_words"] is not None or removed)
@@ -224,6 +230,6 @@ def _cases(draw, tier="quick"):
 
 
 CLAUSES = [
-    Clause("differential", check, strategy=lambda tier: _cases(tier), quick=2400, thorough=40000, quick_shards=12,
+    Clause("differential", check, strategy=lambda tier: st.builds(lambda c, h: dict(c, via_copy=h), _cases(tier), st.sampled_from(COPIES)), quick=2400, thorough=40000, quick_shards=12,
            doc="Traceable{Count,Tfidf}Vectorizer vs {Count,Tfidf}Vectorizer with the same arguments"),
 ]
